@@ -11,7 +11,7 @@
 (*                                                                         *)
 (* Grain: one step = one "ss" clock cycle; record r = [iw (word on the     *)
 (* sink), good, bad (the two strobes), sv (source valid mask), sd (source  *)
-(* data bytes)].                                                           *)
+(* data bytes), rst (domain reset)].                                       *)
 (*  Env : any stream of valid / not-valid words built from packets         *)
 (*        (CRCs good or corrupted), idle, other traffic.                   *)
 (*  Ref : a parser of the *valid* words only: header words collected,      *)
@@ -118,7 +118,8 @@ RxAfter(p1, r) ==
 \* p1 = RxResolve(RxConsume(p, r.iw)) is passed in, bound once by the caller (it may hold a CRC evaluation)
 JudgeE(p, p1, r) ==
     IF RxOverrun(p, p1) THEN [f |-> "env_verdict_overrun", n |-> p]
-    ELSE [f |-> RxFailing(p1, r), n |-> RxAfter(p1, r)]
+    \* a reset of the clock domain (r.rst) makes the receiver forget everything with the next edge
+    ELSE [f |-> RxFailing(p1, r), n |-> IF r.rst THEN RxInit ELSE RxAfter(p1, r)]
 
 -----------------------------------------------------------------------------
 (* Building packets (used by the Env of the model; the harness builds its  *)
